@@ -235,7 +235,7 @@ func (e *Engine) Prelude() string {
 	var ok strings.Builder
 	ok.WriteString("(define-fun any_ok ((a Any) (alloc Int)) Bool (and (=> ((_ is A_other) a) (and (> (other_tid a) 100000) (< (other_h a) alloc)))")
 	for _, c := range cons {
-		inv := e.payloadInv(Term{fmt.Sprintf("(%s a)", c.Sel), c.Payload}, c.T, 2)
+		inv := e.payloadInv(Term{fmt.Sprintf("(%s a)", c.Sel), c.Payload}, c.T, 1)
 		if inv.S != "true" {
 			fmt.Fprintf(&ok, " (=> ((_ is %s) a) %s)", c.Con, inv.S)
 		}
